@@ -121,7 +121,18 @@ GEOMS = {
 }
 
 
+def verts3(geo):
+    """vertices of a geometry as (n, 3): a planar path lives in the z = 0 plane of its node"""
+    v = np.asarray(geo.vertices, dtype=np.float64)
+    if v.ndim == 2 and v.shape[1] == 2:
+        v = np.column_stack((v, np.zeros(len(v))))
+    return v
+
+
 def make_geometry(name):
+    name = name.split("#")[0]  # "box#2" is a second object with the same content as "box"
+    if name == "path2":
+        return trimesh.load_path(np.array([[[0, 0], [2, 0]], [[2, 0], [2, 1]], [[2, 1], [0.5, 1.5]], [[0.5, 1.5], [0, 0]]], dtype=np.float64))
     if name in GEOMS:
         V, F = gmesh.build(GEOMS[name])
         return trimesh.Trimesh(V + np.array([0.3, -0.2, 0.1]), F, process=False)
@@ -204,7 +215,7 @@ def placed_tris(ref, geoms):
 def placed_points(ref, geoms):
     out = []
     for n, g, T in ref.instances():
-        out.append(hom(T, np.asarray(geoms[g].vertices)))
+        out.append(hom(T, verts3(geoms[g])))
     return np.vstack(out) if out else np.zeros((0, 3))
 
 
@@ -244,6 +255,10 @@ def check_quantities(s, ref, geoms, where, sigp):
             ok, msg = same_tris(mine, want, scale)
             check(ok, sigp + "|triangles_node|alignment", f"{where}: node {n}: {msg}")
         area = tri_area(T)
+        # a closed planar path has an enclosed area of its own (Path2D.area), carried rigidly / scaled by s^2
+        for n, g, Tn in ref.instances():
+            if isinstance(geoms[g], trimesh.path.Path2D):
+                area += float(geoms[g].area) * abs(np.linalg.det(Tn[:3, :3])) ** (2.0 / 3.0)
         check(abs(s.area - area) <= 1e-9 * area, sigp + "|area", f"{where}: scene.area {s.area} vs sum of placed areas {area}")
         per = {}
         for n, g, Tn in ref.instances():
@@ -274,7 +289,7 @@ def check_quantities(s, ref, geoms, where, sigp):
         check(ok, sigp + "|dump|triangles", f"{where}: {msg}")
         ok, msg = same_tris(s.to_mesh().triangles, T, scale)
         check(ok, sigp + "|to_mesh|triangles", f"{where}: {msg}")
-    dp = np.vstack([np.asarray(x.vertices) for x in d]) if d else np.zeros((0, 3))
+    dp = np.vstack([verts3(x) for x in d]) if d else np.zeros((0, 3))
     check(len(dp) == len(P) and np.abs(np.sort(dp, axis=0) - np.sort(P, axis=0)).max() <= tol, sigp + "|dump|vertices", where)
 
 
@@ -396,10 +411,15 @@ def b_scene(case, ctx):
                 elif step[0] == "edit_geometry":
                     names = sorted(geoms)
                     g = geoms[names[step[1] % len(names)]]
-                    g.vertices[0] += np.array([0.5, -0.25, 0.125])
+                    g.vertices[0] += np.array([0.5, -0.25, 0.125])[: g.vertices.shape[1]]
                 elif step[0] == "scale_geometry":
                     names = sorted(geoms)
                     geoms[names[step[1] % len(names)]].apply_scale(1.5)
+                elif step[0] == "scale_all":
+                    # the same edit applied to every geometry object of the scene
+                    for gname in sorted(geoms):
+                        if hasattr(geoms[gname], "apply_scale") and len(geoms[gname].vertices):
+                            geoms[gname].apply_scale(step[1])
                 elif step[0] == "delete":
                     names = sorted(geoms)
                     if len(names) > 1:
@@ -449,7 +469,7 @@ def scene_spec(draw, sim=True):
     n = draw(st.integers(1, 7))
     classes = ["rigid", "rigid", "translation", "rotation"] + (["similarity"] if sim else [])
     nodes = []
-    geom_pool = draw(st.lists(st.sampled_from(["box", "tet", "prism", "ico", "cloud", "path3", "nofaces"]), min_size=1, max_size=3, unique=True))
+    geom_pool = draw(st.lists(st.sampled_from(["box", "tet", "prism", "ico", "cloud", "path3", "nofaces", "path2", "box#2", "tet#2", "box", "tet"]), min_size=1, max_size=4, unique=True))
     for i in range(n):
         M = np.array(draw(gm.matrix(classes=classes, tscale=5.0))["M"])
         if abs(np.linalg.det(M[:3, :3]) - 1) > 1e-6:
@@ -479,8 +499,10 @@ def scene_case(draw):
     elif k == "history":
         steps = []
         for _ in range(draw(st.integers(1, 5))):
-            t = draw(st.sampled_from(["edge", "edge", "edit_geometry", "scale_geometry", "delete", "add_geometry", "read", "readd", "readd"]))
-            if t in ("edge", "add_geometry"):
+            t = draw(st.sampled_from(["edge", "edge", "edit_geometry", "scale_geometry", "scale_all", "delete", "add_geometry", "read", "read", "readd", "readd"]))
+            if t == "scale_all":
+                steps.append([t, draw(st.sampled_from([2.0, 0.5, 3.0]))])
+            elif t in ("edge", "add_geometry"):
                 steps.append([t, draw(st.integers(0, 6)), draw(gm.matrix(classes=["rigid", "translation", "similarity"], tscale=5.0))])
             else:
                 steps.append([t, draw(st.integers(0, 6))])
@@ -524,7 +546,16 @@ def fixed_cases():
     ops += [["history", [["read", 0], ["edge", 0, {"M": T1.tolist()}], ["edit_geometry", 0], ["scale_geometry", 1], ["add_geometry", 0, {"M": S.tolist()}], ["delete", 0]]]]
     spec_nofaces = {"nodes": [{"parent": None, "M": T1.tolist(), "geom": "nofaces"}] + spec_rigid["nodes"][:4]}
     ops = ops + [["history", [["read", 0], ["readd", 0], ["readd", 1], ["read", 0], ["readd", 2]]]]
-    for sp in (spec, spec_rigid, spec_nofaces):
+    # two distinct geometry objects with identical content, and a planar path moved inside its own plane
+    spec_twins = {"nodes": [{"parent": None, "M": T1.tolist(), "geom": "box"}, {"parent": None, "M": T2.tolist(), "geom": "box#2"}, {"parent": 0, "M": T1.tolist(), "geom": "tet"}, {"parent": 1, "M": T1.tolist(), "geom": "tet#2"}]}
+    Tp = np.eye(4)
+    Tp[:3, 3] = [3.0, -2.0, 0.0]
+    Rz = np.eye(4)
+    Rz[:3, :3] = gm.rodrigues([0, 0, 1], 0.6)
+    Rz[:3, 3] = [1.0, 2.0, 0.0]
+    spec_planar = {"nodes": [{"parent": None, "M": Tp.tolist(), "geom": "path2"}, {"parent": None, "M": Rz.tolist(), "geom": "path2"}, {"parent": None, "M": R.tolist(), "geom": "path2"}, {"parent": None, "M": T1.tolist(), "geom": "box"}]}
+    ops = ops + [["history", [["read", 0], ["scale_all", 2.0], ["read", 0], ["scale_all", 0.5]]]]
+    for sp in (spec, spec_rigid, spec_nofaces, spec_twins, spec_planar):
         for op in ops:
             for warm in (False, True):
                 c = {"spec": sp, "warm": warm, "op": op}
